@@ -254,6 +254,37 @@ def shared_state(u):
         cached = {m.name for m in c.methods.values() if m.is_cached_property}
         reads = {n.attr for n in ast.walk(f.node) if isinstance(n, ast.Attribute) and isinstance(n.value, ast.Name) and n.value.id == "self"}
         u.ensure(f.is_cached_property and reads <= (ctor_only | cached), f"cached_property_history-independent:{q.split('.')[-1]}", desc=f"{q} reads self.{sorted(reads)}; construction-time fields: {sorted(ctor_only)}")
+    # ... and the same for EVERY cached property in scope: a value memoised on an object may depend only on what the
+    # object's constructor fixed.  A dataclass (Params) has public fields the caller may change between two solves:
+    # nothing derived from them may be cached on it.
+    for mod in repo.all_modules():
+        if mod.name.startswith(OUT_OF_SCOPE):
+            continue
+        for c in mod.classes.values():
+            cps = [m for m in c.methods.values() if m.is_cached_property]
+            if not cps:
+                continue
+            stored_by = {}
+            for k_ in [c] + [b for b in c.mro() if b is not c] if hasattr(c, "mro") else [c]:
+                for m in k_.methods.values():
+                    for n in ast.walk(m.node):
+                        if isinstance(n, ast.Attribute) and isinstance(n.ctx, ast.Store) and isinstance(n.value, ast.Name) and n.value.id == "self":
+                            stored_by.setdefault(n.attr, set()).add(m.name)
+            # private helpers that only the constructor calls are part of construction
+            callers = {}
+            for m in c.methods.values():
+                for n in ast.walk(m.node):
+                    if isinstance(n, ast.Call) and isinstance(n.func, ast.Attribute) and isinstance(n.func.value, ast.Name) and n.func.value.id == "self":
+                        callers.setdefault(n.func.attr, set()).add(m.name)
+            ctor_helpers = {"__init__", "__post_init__"} | {h for h, cs in callers.items() if h.startswith("_") and cs <= {"__init__"}}
+            ctor_only = {a for a, ms in stored_by.items() if ms <= ctor_helpers}
+            cached = {m.name for m in cps}
+            methods = set(c.methods)
+            for f in cps:
+                reads = {n.attr for n in ast.walk(f.node) if isinstance(n, ast.Attribute) and isinstance(n.value, ast.Name) and n.value.id == "self" and isinstance(n.ctx, ast.Load)}
+                bad = sorted(r for r in reads if r not in ctor_only and r not in cached and r not in methods)
+                u.ensure(not c.is_dataclass and not bad, f"cached_property_reads_only_construction-time_state:{c.qualname}.{f.name}",
+                         desc=f"{c.qualname}.{f.name} is memoised but reads self.{bad or sorted(reads)}" + (" of a dataclass whose fields the caller may change between solves" if c.is_dataclass else " (not fixed by the constructor)"))
     # global numpy random state is never used (the condition estimator owns a seeded generator)
     for f in in_scope_functions(repo):
         for n in ast.walk(f.node):
